@@ -3,6 +3,7 @@
 package executor
 
 import (
+	"github.com/cbergoon/merkletree"
 	"math/big"
 	"sync"
 
@@ -105,4 +106,40 @@ func zzRecordOf(exec *BlockExecutor, id string) (pb.TransactionRecord, bool) {
 	}
 	err := r.Unmarshal(v)
 	return r, err == nil
+}
+
+// zzRefRoot: the Merkle root over the given leaves, computed with the tree library directly
+// (a reference that does not go through the executor's own root functions).
+func zzRefRoot(leaves []merkletree.Content) *types.Hash {
+	if len(leaves) == 0 {
+		return &types.Hash{}
+	}
+	tree, err := merkletree.NewTree(leaves)
+	if err != nil {
+		panic(err)
+	}
+	return types.NewHash(tree.MerkleRoot())
+}
+
+// zzCheckStoredRoots: the stored header of block h commits to exactly the stored transactions
+// (every one of them, in block order, also those rejected before execution) and to exactly their
+// receipts as stored (every field Receipt.Hash covers, failed receipts included).
+func zzCheckStoredRoots(exec *BlockExecutor, h uint64) {
+	stored, err := exec.ledger.GetBlock(h, true)
+	zz.Assert("C09.roots.block-stored", err == nil)
+	if err != nil {
+		return
+	}
+	var txLeaves, rLeaves []merkletree.Content
+	for _, tx := range stored.Transactions.Transactions {
+		txLeaves = append(txLeaves, tx.GetHash())
+		r, e := exec.ledger.GetReceipt(tx.GetHash())
+		zz.Assert("C09.roots.receipt-stored", e == nil)
+		if e != nil {
+			return
+		}
+		rLeaves = append(rLeaves, r.Hash())
+	}
+	zz.Assert("C09.roots.tx-root-commits-to-every-stored-transaction", stored.BlockHeader.TxRoot.String() == zzRefRoot(txLeaves).String())
+	zz.Assert("C10.roots.receipt-root-commits-to-every-stored-receipt", stored.BlockHeader.ReceiptRoot.String() == zzRefRoot(rLeaves).String())
 }
